@@ -89,12 +89,15 @@ CLAIMED["C14"] = dict(
     text="The named-reference table and the C1 table compiled into html5ever are proved equal to frozen WHATWG references "
          "on every run (translator + kernel); the model of build.rs/phf lookup is proved exact on names, prefix-closed and "
          "empty elsewhere; the wrapping numeric accumulator with its overflow latch is proved to decide 'value > 0x10FFFF' "
-         "for digit strings of any length and finish_numeric to return the standard's code point. The char-ref model is tied "
+         "for digit strings of any length and finish_numeric to return the standard's code point; the named-reference walk is proved to "
+         "remember exactly the longest table name that is a prefix of the text after '&' (prefix closure => nothing longer exists). The char-ref model is tied "
          "to the Rust by the tok correspondence; the property's finite quantifier is enumerated on the real code against an "
          "independent Python decoder (quick: a stratified subset, thorough: the full product and all numeric values).",
     note="Trusted: Lean kernel; tools/extract.py; Python's html.entities as the WHATWG reference; the Python reference "
-         "decoder; phf/string_cache are modelled as a finite map. The longest-match walk is carried by the correspondence "
-         "and the enumeration, not yet by a theorem.")
+         "decoder; phf/string_cache are modelled as a finite map. The longest-match walk is a theorem (Walk.C14_named_longest + "
+         "Walk.C14_walk_is_do_named: the registers of do_named evolve as the walk, and when the buffer leaves the map the "
+         "remembered match is the longest table name that is a prefix of the text); what finish_named then does with it "
+         "(attribute-context rule, missing-semicolon error, un-consume) is carried by the correspondence and the enumeration.")
 
 CLAIMED["C07"] = dict(
     engine="ser", design_ref="6.7",
